@@ -77,6 +77,9 @@ var opNames = []string{"root.Info", "child.Warn", "derive+Error", "below-thresho
 // doOp is the single call site of every logging operation (so that source positions agree
 // between the concurrent run and the run-alone reference).
 func doOp(root, child, wide *logger.Logger, kind int, tag string) {
+	// every operation has its own instant (a different second, some a different day): the time
+	// is part of the line, and what a line says must not depend on who else is logging
+	vtime.SetThreadNow(opTime(tag))
 	switch kind {
 	case 7: // derive from a shared non-root parent whose rendered attributes leave spare capacity, then log
 		wide.WithGroup("s"+tag).Error("w-"+tag, "x", 1)
@@ -102,6 +105,15 @@ func doOp(root, child, wide *logger.Logger, kind int, tag string) {
 }
 
 func derive(root *logger.Logger) *logger.Logger { return root.With("pre", 1).WithGroup("g") }
+
+var baseTime = time.Date(2023, 8, 16, 0, 35, 15, 208873091, time.FixedZone("", 8*3600))
+
+// opTime derives the instant of an operation from its tag ("t<thread>o<index>").
+func opTime(tag string) time.Time {
+	var ti, oi int
+	fmt.Sscanf(tag, "t%do%d", &ti, &oi)
+	return baseTime.Add(time.Duration(ti)*25*time.Hour + time.Duration(oi)*61*time.Second)
+}
 
 // deriveWide: several attributes appended one by one, so that the parent's rendered bytes sit
 // in a backing array with room to spare (what two derivations from it could both write into)
